@@ -11,14 +11,15 @@ def is_name(n):
     return isinst(n, "ast.Name")
 
 
-contract(CAQ + "build_CPPCodeValue", props=["C11", "C09"],
+contract(CAQ + "build_CPPCodeValue", props=["C11", "C09"], replay={"no-raise[ValueError]": "dropped_call_arguments"},
          params=dict(spec=CPPCodeSpecification, call_node=CALL), result=CALL,
          requires=["field(call_node, 'func') != None and live(field(call_node, 'func'))",
                    ("call_style_known", "is_attr(field(call_node, 'func')) or is_name(field(call_node, 'func'))"),
                    "implies(is_attr(field(call_node, 'func')), field(field(call_node, 'func'), 'value') != None and live(field(field(call_node, 'func'), 'value')))"],
          modifies=["func", "include_files", "link_libraries", "initialization_code", "running_code", "args@" + CCV, "replacement_instance_obj",
                    "result", "result_rep", "fields@" + CCV, "alloc"],
-         raises={"ValueError": "len(field(call_node, 'args')) != len(spec.arguments) or (is_attr(field(call_node, 'func')) and spec.method_object == None) or "
+         raises={"ValueError": "len(field(call_node, 'args')) != len(spec.arguments) or len(field(call_node, 'keywords')) > 0 or "
+                               "(is_attr(field(call_node, 'func')) and spec.method_object == None) or "
                                "(is_name(field(call_node, 'func')) and spec.method_object != None)"},
          may_raise=["AttributeError"],
          ensures=[("same_call", "result == call_node and seq_eq(field(call_node, 'args'), old(field(call_node, 'args')))"),
